@@ -155,6 +155,15 @@ fn rt_family(out: &mut Vec<Case>, thorough: bool) {
                 let nb = if i % 4 == 3 { 0 } else { 1 };
                 out.push(case(format!("rt/{drv}/{cap}/{}/{nb}", p.replace(',', "")), vec![format!("rt {drv} {cap}"), format!("tok {p} {nb}")]));
             }
+            // every order of `with_cancel` x `with_personality` around the same ops (the token must reach `Submit::poll`
+            // through any stack of combinators)
+            let nests: &[&str] = if thorough { &["pc", "cp", "pcp", "ppc", "cpp", "pcpp"] } else { &["pc", "cp", "pcp"] };
+            let nprogs: &[&str] = if thorough { &["r", "F,r", "X,r", "r,r", "k,F,r", "d,F,k", "F,d,r,k"] } else { &["r", "F,r", "X,r", "k,F,r"] };
+            for nest in nests {
+                for p in nprogs {
+                    out.push(case(format!("rtn/{drv}/{cap}/{nest}/{}", p.replace(',', "")), vec![format!("rt {drv} {cap}"), format!("tok {p} 1 {nest}")]));
+                }
+            }
         }
     }
 }
